@@ -1,8 +1,8 @@
-from . import streams_codec, cli
+from . import streams_codec, streams_sol, cli
 
 ID = 'C09'
-PROPS_MODULE = 'Refine.Props.C09'
-STREAMS = [streams_codec.SOLB_WRITE, streams_codec.SOLB_READ, cli.FIELDRT, cli.FIELDRT_MPI]
+PROPS_MODULE = ['Refine.Props.C09', 'Refine.Props.C09Sol']
+STREAMS = [streams_codec.SOLB_WRITE, streams_codec.SOLB_READ] + streams_sol.STREAMS + [cli.FIELDRT, cli.FIELDRT_MPI]
 EXPLANATION = (
     'Proved in Lean (Refine/Props/C09.lean): decodeSolb n (encodeSolb v s) = ok (ldim, rows) for every ldim '
     '(versions 2,3,4; 2-D and 3-D; also with the C20 count check), decodeMetricSolb (encodeMetricSolb v twod ms) = '
